@@ -534,6 +534,109 @@ def compare_rules(rep, ctx):
                f"({sorted(kinds_e)})", f.loc(b))
 
 
+def eval_char_pred(g, ch, fuel=400):
+    """Evaluate a `|c: char| -> bool` closure's MIR on one character (only whole-local scalar statements, switches,
+    char classification calls).  Raises AnchorMissing on anything else (fail closed)."""
+    import unicodedata
+    env = {g.argc: ord(ch)}        # the last argument is the char (argument 1 is the closure environment)
+    known = {"is_control": lambda v: unicodedata.category(chr(v)) == "Cc",
+             "is_whitespace": lambda v: chr(v).isspace(), "is_ascii": lambda v: v < 128,
+             "is_ascii_control": lambda v: v < 32 or v == 127,
+             "is_alphanumeric": lambda v: chr(v).isalnum(), "is_ascii_graphic": lambda v: 33 <= v <= 126}
+
+    def val(op):
+        if "c" in op:
+            if "v" not in op:
+                raise mir.AnchorMissing(f"{g.path}: non-scalar constant")
+            return int(op["v"])
+        pl = op.get("cp") or op.get("mv")
+        if pl is None or pl.get("p") or pl["l"] not in env:
+            raise mir.AnchorMissing(f"{g.path}: operand {op} not evaluable")
+        return env[pl["l"]]
+    ops = {"Eq": lambda a, b: a == b, "Ne": lambda a, b: a != b, "Lt": lambda a, b: a < b, "Le": lambda a, b: a <= b,
+           "Gt": lambda a, b: a > b, "Ge": lambda a, b: a >= b, "BitAnd": lambda a, b: a & b, "BitOr": lambda a, b: a | b,
+           "BitXor": lambda a, b: a ^ b}
+    b = 0
+    while fuel > 0:
+        fuel -= 1
+        for st in g.stmts(b):
+            if st["k"] != "=":
+                continue
+            if st["p"].get("p"):
+                raise mir.AnchorMissing(f"{g.path}: store to a projection")
+            rv = st["rv"]
+            if rv["k"] == "use":
+                v = val(rv["o"])
+            elif rv["k"] == "un" and rv["op"] == "Not":
+                v = int(not val(rv["a"]))
+            elif rv["k"] == "bin" and rv["op"] in ops:
+                v = int(ops[rv["op"]](val(rv["a"]), val(rv["b"])))
+            elif rv["k"] == "cast":
+                v = val(rv["o"])
+            else:
+                raise mir.AnchorMissing(f"{g.path}: rvalue {rv['k']} not evaluable")
+            env[st["p"]["l"]] = v
+        t = g.term(b)
+        if t["k"] == "return":
+            if 0 not in env:
+                raise mir.AnchorMissing(f"{g.path}: no return value")
+            return bool(env[0])
+        if t["k"] == "goto":
+            b = t["t"]
+        elif t["k"] == "switch":
+            v = val(t["d"])
+            b = dict((int(x), y) for x, y in t["ts"]).get(v, t["else"])
+        elif t["k"] == "call":
+            name = mir.norm(t.get("res") or t.get("fn") or "").split("::")[-1]
+            if name not in known or t["d"].get("p") or t["t"] < 0:
+                raise mir.AnchorMissing(f"{g.path}: call {name} not evaluable")
+            env[t["d"]["l"]] = int(known[name](val(t["args"][0])))
+            b = t["t"]
+        elif t["k"] in ("assert", "drop"):
+            b = t["t"]
+        else:
+            raise mir.AnchorMissing(f"{g.path}: terminator {t['k']}")
+    raise mir.AnchorMissing(f"{g.path}: evaluation did not terminate")
+
+
+def binary_heuristic_rule(rep, B, f, ctx, blocks):
+    """Other tests between the comparison and the line-ending message: an `Iterator::any(pred)` over the chars of the
+    file must be taken on its false edge, and `pred` must be false for CR, LF, TAB and a letter - otherwise a text file
+    with CRLF line endings can never reach the message."""
+    seen = set()
+    for b in blocks:
+        for gsw, vals, o in f.guard_edges(b):
+            o, n2 = strip_not(o)
+            if o.get("kind") != "call" or not o["call"].matches("Iterator::any") or gsw in seen:
+                continue
+            seen.add(gsw)
+            ac = o["call"]
+            rep.ob("R33.4", f"{short(f.npath)}: the line-ending message requires `any(binary-looking char)` = false",
+                   edge_polarity(vals, n2) is False, "the message is only reachable for files with control characters",
+                   f.loc(gsw))
+            src = [x for x, _ in chain(f, ac.args[0])[0]]
+            rep.ob("R33.4", f"{short(f.npath)}: the binary-looking test scans the chars of the file read",
+                   any(x.matches(re.compile(r"\bstr>?::chars$")) for x in src) and
+                   any(x.bb == r.bb for x in src for r in ctx.reads), "", f.loc(ac.bb))
+            po = f.origin(ac.args[1]) if len(ac.args) > 1 else {}
+            name = po.get("rv", {}).get("closure") if po.get("kind") == "agg" else po.get("fn")
+            preds = B.by_name.get(mir.norm(name), []) if name else []
+            if len(preds) != 1:
+                rep.ob("R33.4", f"{short(f.npath)}: the binary-looking predicate is a closure / fn of the CLI crate", False,
+                       f"{name}", f.loc(ac.bb))
+                continue
+            g = preds[0]
+            rep.saw(g)
+            for ch, nm in (("\r", "CR"), ("\n", "LF"), ("\t", "TAB"), ("a", "a letter")):
+                rep.ob("R33.4", f"{short(f.npath)}: {nm} does not count as a binary-looking character",
+                       eval_char_pred(g, ch) is False,
+                       "a text file containing this character is treated as binary: a CRLF-only difference is then "
+                       "reported as a generic `not up to date`", g.loc())
+            rep.ob("R33.4", f"{short(f.npath)}: NUL counts as a binary-looking character", eval_char_pred(g, "\0") is True,
+                   "", g.loc())
+    return len(seen)
+
+
 def crlf_rule(rep, B, ctxs):
     """R33.4: the line-ending message is built only under `a.lines().eq(b.lines())` of the two texts."""
     c = B.c
@@ -597,6 +700,8 @@ def crlf_rule(rep, B, ctxs):
             rep.ob("R33.4", f"{short(f.npath)}: the line-ending message is reached only through "
                             f"`prev.lines().eq(contents.lines())` = true", not badv,
                    badv[0][1] if badv else "", f.loc(badv[0][2] if badv else blocks[0]))
+            rep.guard("R33.4", f"binary heuristic of {short(f.npath)}",
+                      lambda f=f, ctx=ctx, blocks=blocks: binary_heuristic_rule(rep, B, f, ctx, blocks))
             # the message sits on the `differs` side of the comparison
             rep.ob("R33.4", f"{short(f.npath)}: the line-ending message is on the `bytes differ` side",
                    bool(ctx.cmps) and all(any(b in f.reachable(d) and b not in f.reachable(e, avoid=ctx.succ)
